@@ -1,5 +1,5 @@
 (* C16: extraction of the parameter-interface model (ExtrOcamlBasic only; Z stays Coq's binary type) *)
 Require Import ExtrOcamlBasic.
-From ZV.Params Require Import BoundsModel ParamModel CParamsAdjust SessionModel.
-Extraction "Extract/out/c16model.ml" xstep xworld_new step world_new cbounds_id dbounds_id all_cparams all_dparams cparam_id dparam_id cdefault
+From ZV.Params Require Import BoundsModel ParamModel CParamsAdjust SessionModel InitModel.
+Extraction "Extract/out/c16model.ml" ystep xstep xworld_new step world_new cbounds_id dbounds_id all_cparams all_dparams cparam_id dparam_id cdefault
   adjust_cparams adjust_cparams_public get_cparams get_cparams_public check_cparams cpar_list unknown_cell.
